@@ -156,6 +156,9 @@ func (g *ImgGen) FV(o VolOpts) *hu.FV {
 		if o.Depth > 0 && g.R.Intn(5) == 0 {
 			sub := g.FV(VolOpts{Budget: 200 + g.R.Intn(400), Nested: true, Depth: o.Depth - 1, Free: -1, MaxAlign: min(o.MaxAlign, 2), NFiles: -1})
 			f = &hu.File{Kind: "fs", GUID: g.guid(), Type: 0x0B, State: 0xF8, Attrs: uint8(g.R.Intn(2)) * 0x40}
+			if g.R.Intn(2) == 0 { // a volume image section is legal in every sectioned file type (hostcases.go)
+				f.Type = HostTypes[g.R.Intn(len(HostTypes))]
+			}
 			if g.R.Intn(3) == 0 {
 				f.Secs = append(f.Secs, &hu.Sec{Kind: "su", Name: []rune(namePool[g.R.Intn(len(namePool))])})
 			}
